@@ -425,6 +425,18 @@ pub fn run(tier: &str) -> Report {
     }
     let n_generated = seeds.len();
     seeds.extend(bundled_seeds());
+    // round-robin over (host, family): if the wall cap cuts the run short (slow or loaded machine) it cuts the depth of every
+    // family evenly instead of dropping the families that happen to come last
+    {
+        let mut rank: BTreeMap<String, usize> = BTreeMap::new();
+        let mut keyed: Vec<(usize, usize, Seed)> = seeds.drain(..).enumerate().map(|(i, s)| {
+            let fam = format!("{}:{}", s.host, s.label.split(':').next().unwrap_or(""));
+            let r = rank.entry(fam).or_insert(0); *r += 1;
+            (*r, i, s)
+        }).collect();
+        keyed.sort_by_key(|k| (k.0, k.1));
+        seeds = keyed.into_iter().map(|k| k.2).collect();
+    }
     rep.extra.insert("seed_compile_stats(ok,rejected)".into(), json!(compile_stats));
     rep.extra.insert("bundled_files".into(), json!(seeds.len() - n_generated));
     rep.states = seeds.len() as u64;
